@@ -587,7 +587,7 @@ class DRRPart:
            "the model is hand-written (coq/Elem/DRR.v); it includes its own model of the base-class behaviour DRR uses "
            "(send_packet, add_packet_to_queue, total_packets, packets_available)"]
     trusted_base = {"C15": _tb, "C12": _tb, "C08": _tb}
-    _as = ["workloads contain only packets whose flow maps to a configured class, size >= 0; rate > 0; weights are positive "
+    _as = ["workloads contain only packets whose flow maps to a configured class, size > 0; rate > 0; weights are positive "
            "(a packet of an unconfigured class makes put() raise KeyError: outside C12's domain)",
            "'the class's queue empties' is read as the code reads it: class_count (packets of the class waiting or in "
            "transmission) is 0 when run() resumes after the transmission; a packet of the class that arrives during the "
